@@ -1,1 +1,183 @@
-//! E3 engine (see remote.rs)
+//! E3 engine: E1 histories, model and monitors against the real `teosd` binary.
+//!
+//! Same generator, same `TowerModel`, same cross-checks as `e1`, but the tower is a `teosd` process
+//! (verif build) bootstrapped by its own `main.rs` against a fake bitcoind over real TCP; user
+//! requests go through the HTTP API (or, when the front-end could not carry them, the internal gRPC
+//! API), operator requests through the mTLS gRPC API; restarts are SIGKILL or the `stop` RPC in turns.
+//! What this adds to E1: `main.rs` itself (listener order, block cache slices, bootstrap persistence,
+//! configuration plumbing), the three servers, the real block-source and node RPC clients.
+
+use crate::chain::SimChain;
+use crate::e1::{Case, Exit};
+use crate::model::viol;
+use crate::panics;
+use crate::remote::{panic_in, run_remote_session, FakeBitcoind, StopMode, TeosdOpts};
+use crate::report::Report;
+use crate::tower::BootError;
+use std::path::{Path, PathBuf};
+use std::sync::Arc;
+
+pub struct RemoteStats {
+    pub sessions: u64,
+    pub graceful_stops: u64,
+    pub graceful_failed: u64,
+    pub http_calls: u64,
+    pub grpc_calls: u64,
+    pub btc_requests: u64,
+    pub inconclusive: Option<String>,
+    /// per teosd process (with `trace`): hook points hit, names of the points
+    pub points: Vec<Vec<String>>,
+    /// per teosd process: requests the fake bitcoind received from it
+    pub requests: Vec<u64>,
+}
+
+/// Runs one case to completion against real teosd processes (restarts included).
+pub fn run_case_remote(case: &mut Case, base: &Path, trace: bool) -> RemoteStats {
+    let datadir = base.join(format!("teosd-{}", case.id));
+    let _ = std::fs::remove_dir_all(&datadir);
+    std::fs::create_dir_all(&datadir).unwrap();
+    case.cfg.db_path = datadir.join("regtest").join("teos_db.sql3");
+    let chain: Arc<SimChain> = Arc::new({
+        let mut c = case.world.simchain();
+        c.snap_path = Some(case.cfg.db_path.clone());
+        c
+    });
+    let btc = FakeBitcoind::start(chain, case.world.node.clone());
+    let mut stats = RemoteStats { sessions: 0, graceful_stops: 0, graceful_failed: 0, http_calls: 0, grpc_calls: 0, btc_requests: 0, inconclusive: None, points: Vec::new(), requests: Vec::new() };
+    loop {
+        let trace_path = datadir.join(format!("trace-{}.log", stats.sessions));
+        let opts = TeosdOpts { trace: if trace { Some(trace_path.clone()) } else { None }, ..Default::default() };
+        let boot_log_start = case.world.log.len();
+        case.model.on_restart(boot_log_start);
+        let stop = if case.restarts % 2 == 1 { StopMode::Graceful } else { StopMode::Kill };
+        let graceful = matches!(stop, StopMode::Graceful);
+        let mut counters = (0u64, 0u64);
+        let cfg = case.cfg.clone();
+        let res = run_remote_session(&btc, &datadir, &cfg, &opts, stop, |s| {
+            let fp = s.first_poll_log_idx;
+            let e = case.drive(s, fp);
+            if let crate::tower::Api::Remote(r) = &s.api {
+                counters = (r.http_calls.load(std::sync::atomic::Ordering::SeqCst), r.grpc_calls.load(std::sync::atomic::Ordering::SeqCst));
+            }
+            e
+        });
+        stats.sessions += 1;
+        if trace {
+            let names: Vec<String> = std::fs::read_to_string(&trace_path).unwrap_or_default().lines().map(|l| l.split_once(' ').map(|x| x.1).unwrap_or(l).to_string()).collect();
+            stats.points.push(names);
+        }
+        stats.requests.push(crate::chain::lock(&btc.st.0).session_requests);
+        stats.http_calls += counters.0;
+        stats.grpc_calls += counters.1;
+        match res {
+            Ok(out) => {
+                if out.output.contains("Address already in use") {
+                    stats.inconclusive = Some("a listening port of teosd was taken by another process".into());
+                    break;
+                }
+                if let Some((loc, msg)) = panic_in(&out.output) {
+                    let op = case.ops.last().map(|o| format!("{o:?}")).unwrap_or_default();
+                    case.viols.push(viol(&["C11"], format!("C11:panic:teosd:msg={}", panics::message_class(&msg)), format!("teosd panicked at {loc}: {msg}; last step {} {op}", case.steps)));
+                    break;
+                }
+                if !out.alive_at_end {
+                    case.viols.push(viol(&["C11"], "C11:teosd-exited", format!("teosd exited on its own during step {}; output tail: {}", case.steps, tail(&out.output))));
+                    break;
+                }
+                if let Some(e) = out.poll_failure {
+                    stats.inconclusive = Some(format!("poll: {e}"));
+                    break;
+                }
+                if graceful {
+                    stats.graceful_stops += 1;
+                    if out.graceful_exit == Some(false) {
+                        stats.graceful_failed += 1;
+                    }
+                }
+                match out.value {
+                    Exit::Done => break,
+                    Exit::Restart => {
+                        case.restarts += 1;
+                        continue;
+                    }
+                }
+            }
+            Err(BootError::Source(e)) if e.contains("Address already in use") || e.contains("AddrInUse") => {
+                stats.inconclusive = Some("a listening port of teosd was taken by another process".into());
+                break;
+            }
+            Err(BootError::Source(e)) if stats.sessions == 1 && !e.contains("panicked") => {
+                stats.inconclusive = Some(format!("first start failed: {e}"));
+                break;
+            }
+            Err(e) => {
+                case.viols.push(viol(&["C03"], "C03:restart-failed", format!("teosd failed to (re)start on its own data directory: {e:?}")));
+                break;
+            }
+        }
+    }
+    stats.btc_requests = crate::chain::lock(&btc.st.0).requests;
+    btc.shutdown();
+    let _ = std::fs::remove_dir_all(&datadir);
+    stats
+}
+
+fn tail(out: &str) -> String {
+    out.lines().rev().take(5).collect::<Vec<_>>().into_iter().rev().collect::<Vec<_>>().join(" | ")
+}
+
+/// Entry point of the `e3` engine. `props` are credited with an evaluation per history.
+pub fn run(seed: u64, shard: u64, nshards: u64, cases: u64, bias: &str, parallel: usize, only_case: Option<u64>, props: &[String], rep: &mut Report) {
+    let dir = PathBuf::from(format!("/dev/shm/tv-e3-{}", std::process::id()));
+    std::fs::create_dir_all(&dir).unwrap();
+    let ids: Vec<u64> = match only_case {
+        Some(c) => vec![c],
+        None => (0..cases).map(|i| 7_000_000 + shard + i * nshards).collect(),
+    };
+    let results: std::sync::Mutex<Vec<(u64, Case, RemoteStats)>> = std::sync::Mutex::new(Vec::new());
+    let next = std::sync::atomic::AtomicUsize::new(0);
+    std::thread::scope(|sc| {
+        for _ in 0..parallel.max(1).min(ids.len().max(1)) {
+            sc.spawn(|| loop {
+                let k = next.fetch_add(1, std::sync::atomic::Ordering::SeqCst);
+                if k >= ids.len() {
+                    break;
+                }
+                let id = ids[k];
+                // every third history is a directed one (see `e1::scripted_case`)
+                let scripted = only_case.is_none() && !bias.starts_with("script:") && id % 3 == 0;
+                let b = if scripted { format!("script:{}", crate::e1::SCRIPT_KINDS[((id / 3) % crate::e1::SCRIPT_KINDS.len() as u64) as usize]) } else { bias.to_string() };
+                let mut case = Case::new(seed, id, &b, &dir);
+                // shorter histories than E1: every step costs real round trips
+                let _ = &mut case;
+                let stats = run_case_remote(&mut case, &dir, false);
+                results.lock().unwrap().push((id, case, stats));
+            });
+        }
+    });
+    let mut results = results.into_inner().unwrap();
+    results.sort_by_key(|r| r.0);
+    for (id, case, stats) in results {
+        if let Some(why) = &stats.inconclusive {
+            for p in props {
+                let r = rep.p(p);
+                r.eval();
+                r.inconclusive += 1;
+                r.note(format!("e3 history {id}: {why}"));
+            }
+            continue;
+        }
+        crate::e1::report_case(rep, &case, id, seed, "e3");
+        for p in props {
+            let r = rep.p(p);
+            r.count("e3_histories", 1);
+            r.count("e3_teosd_processes", stats.sessions);
+            r.count("e3_http_requests", stats.http_calls);
+            r.count("e3_internal_grpc_requests", stats.grpc_calls);
+            r.count("e3_bitcoind_rpcs_served", stats.btc_requests);
+            r.count("e3_graceful_stops", stats.graceful_stops);
+            r.count("e3_graceful_stop_timeouts", stats.graceful_failed);
+        }
+    }
+    std::fs::remove_dir_all(&dir).ok();
+}
